@@ -1,7 +1,7 @@
 (** Boolean comparison helpers used by the generated correspondence cases (C14). *)
 From Coq Require Import List String Bool ZArith.
 From SFC.Base Require Import Res.
-From SFC.Block Require Import Classify.
+From SFC.Block Require Import Classify Blocks.
 Import ListNotations.
 
 Fixpoint list_eqb {A} (eqb : A -> A -> bool) (a b : list A) : bool :=
@@ -34,3 +34,8 @@ Definition c14_case (tbl : list (string * bool)) (text : string) (r : result par
 
 Definition c14_case_orig (tbl : list (string * bool)) (text : string) (r : result parsed) : bool :=
   res_eqb parsed_eqb (parse_block_orig (fo_of_table tbl) text) r.
+
+(** A generated description lies inside the quantifier of the C14 theorems ([wf]) and the Coq
+    printer produces exactly the text that was handed to the implementation. *)
+Definition c14_desc_case (tbl : list (string * bool)) (b : list item) (text : string) : bool :=
+  wf (fo_of_table tbl) b && String.eqb (print b) text.
